@@ -13,7 +13,12 @@
    Python sets and dicts are lists (a dict in insertion order); set intersection is [filter], which keeps the
    order — the correspondence compares relations as sets.  Everything of an element that is not an id-valued
    reference (geometry, markings, sign elements, light cycle, ...) is an opaque payload that no operation may
-   change.  A stop line's reference set [None] is modelled as the empty list. *)
+   change.  A stop line's reference set [None] is modelled as the empty list.
+   The model describes the code after "fix: create_from_lanelet_network clears left_of of an incoming element when the
+   incoming it names is not part of the new intersection" ([fix_leftof]); that the cut-out drops incoming elements
+   whose successors were all cut is modelled as it is ([cut_incoming], specification [prune]; known finding).
+   Domain: removal lists at Scenario level name distinct contained elements (otherwise the id bookkeeping raises,
+   C09); cleanup_ids = True. *)
 From Coq Require Import ZArith List Bool.
 Import ListNotations.
 Open Scope Z_scope.
